@@ -468,3 +468,60 @@ def f_gctrace(repo):
     """C03: each `impl GcTrace for T` in program/data.rs visits every field / variant payload of T
     that can hold a Gc handle exactly once, unconditionally."""
     return f_gctrace_impl(repo)
+
+
+# =====================================================================================
+# F-envonce (C04): object-level locals are created once per (object, layer): the function that
+# creates a layer's environment (and with it one pending thunk per object local) is only ever
+# called from inside a OnceCell initialiser.
+# =====================================================================================
+ENV_PROBE = [
+    {"source": 'local o = { local x = std.trace("eval-x", 20), assert x > 0, assert x < 100, a: x + 1, b: x + 2 }; o.a + o.b',
+     "oracle": {"oracle": "stderr_count_equals", "needle": "eval-x", "count": 1}},
+    {"source": 'local o = { local x = std.trace("eval-x", 20), a: x + 1, b: x + 2, c: [x, x] }; std.length(std.manifestJson(o))',
+     "oracle": {"oracle": "stderr_count_equals", "needle": "eval-x", "count": 1}},
+]
+
+
+@frame.frame("C04")
+def f_envonce(repo):
+    """C04: every call of Program::init_object_env (which allocates a fresh pending thunk for each object
+    local of the layer) is the initialiser of a OnceCell (`<cell>.get_or_init(|| ... init_object_env(..) ...)`),
+    so a layer environment - and each object local in it - exists at most once per cell."""
+    rel = LANG + "/" + DATA
+    n, failed, samples = 0, [], []
+    for relf in _files(repo, LANG + "/program/**/*.rs"):
+        src = load(repo, relf)
+        for p in occurrences(src, ["init_object_env", "("]):
+            if p > 0 and src.t(p - 1).text == "fn":
+                continue
+            n += 1
+            fn, _ = frame.enclosing_fn(src, p)
+            # enclosing paren groups, innermost first
+            ok = False
+            stack = []
+            for q in range(0, p):
+                t = src.t(q)
+                if t.kind == PUNCT and t.text in "([{":
+                    stack.append(q)
+                elif t.kind == PUNCT and t.text in ")]}":
+                    stack.pop()
+            for o in reversed(stack):
+                if src.t(o).text == "(" and o >= 2 and src.t(o - 1).text == "get_or_init" and src.t(o - 2).text == ".":
+                    ok = True
+                    break
+                if src.t(o).text == "{" and o >= 1 and src.t(o - 1).text == ")" :
+                    # reached the enclosing fn body without meeting a get_or_init( group
+                    po = src.match[o - 1]
+                    if po >= 2 and src.t(po - 2).text == "fn":
+                        break
+            line = src.t(p).line
+            if ok:
+                if len(samples) < 3:
+                    samples.append("C04:F-envonce: init_object_env called at %s:%d in fn %s inside a OnceCell initialiser" % (relf, line, fn))
+            else:
+                failed.append({"obligation": "C04:F-envonce: a layer environment (one fresh pending thunk per object local) is created only as the initialiser of a OnceCell - found a bare call of init_object_env at %s:%d in fn %s" % (relf, line, fn),
+                               "site": "%s:%s:init_object_env" % (relf, fn), "file": relf, "line": line, "fn": fn, "probe": ENV_PROBE})
+    if n == 0:
+        raise LostAnchor("F-envonce: init_object_env is never called (anchor lost)")
+    return {"name": "F-envonce", "obligations": n, "failed": failed, "samples": samples}
